@@ -24,13 +24,13 @@ def dist_k(k1, k2):
     return min(a, 2 * N - a)
 
 
-def _mk(frame, pos, quat, score=0.9):
+def _mk(frame, pos, quat, score=0.9, uuid=None):
     from perception_eval.common.label import AutowareLabel, Label
     from perception_eval.common.object import DynamicObject
     from perception_eval.common.shape import Shape, ShapeType
 
     return DynamicObject(100, frame, tuple(float(x) for x in pos), quat, Shape(ShapeType.BOUNDING_BOX, (2.0, 1.0, 1.0)),
-                         (0.0, 0.0, 0.0), score, Label(AutowareLabel.CAR, "car"))
+                         (0.0, 0.0, 0.0), score, Label(AutowareLabel.CAR, "car"), uuid=uuid)
 
 
 def _qz(angle):
@@ -58,19 +58,19 @@ def _scene(case_e, case_t, e_quat=None):
     return ego2map, TransformDict([ego2map])
 
 
-def _pair_objects(pos, q1, q2, s1, s2, ego2map, score=0.9):
+def _pair_objects(pos, q1, q2, s1, s2, ego2map, score=0.9, uuids=(None, None)):
     """the same physical pair expressed in the ego frame and in the map frame"""
     from perception_eval.common.schema import FrameID
 
-    est = _mk(FrameID.BASE_LINK, pos, _signed(q1, s1), score)
-    gt = _mk(FrameID.BASE_LINK, pos, _signed(q2, s2), score)
+    est = _mk(FrameID.BASE_LINK, pos, _signed(q1, s1), score, uuids[0])
+    gt = _mk(FrameID.BASE_LINK, pos, _signed(q2, s2), score, uuids[1])
     p1, m1 = ego2map.transform(tuple(pos), q1)
     p2, m2 = ego2map.transform(tuple(pos), q2)
     # Quaternion(matrix=...) picks a sign of its own: normalise to w >= 0 first so that s really selects the sign
     m1 = m1 if m1.w >= 0 else -m1
     m2 = m2 if m2.w >= 0 else -m2
-    est_m = _mk(FrameID.MAP, p1, _signed(m1, s1), score)
-    gt_m = _mk(FrameID.MAP, p2, _signed(m2, s2), score)
+    est_m = _mk(FrameID.MAP, p1, _signed(m1, s1), score, uuids[0])
+    gt_m = _mk(FrameID.MAP, p2, _signed(m2, s2), score, uuids[1])
     return est, gt, est_m, gt_m
 
 
@@ -150,8 +150,9 @@ class HeadingCorr(Corr):
         results = []
         for i, (k1, k2, s1, s2) in enumerate(case["pairs"]):
             pos = [4.0 * i - 10.0, 2.0 + i, 0.0]
+            # the results of several frames pooled in one Ap: tracked objects keep their uuid while they turn (two tracks here)
             est, gt, est_m, gt_m = _pair_objects(pos, _qz(k1 * math.pi / N), _qz(k2 * math.pi / N), s1, s2, ego2map,
-                                                 score=(60 - 5 * i) / 64.0)
+                                                 score=(60 - 5 * i) / 64.0, uuids=(f"t{i % 2}", f"g{i % 2}"))
             results.append(R(est_m, gt_m, transforms=tr) if case["map"] else R(est, gt))
         shuffled = [results[j] for j in case["order"]]
         ap = Ap(TPMetricsAph(), [shuffled], len(results), [AutowareLabel.CAR], MatchingMode.CENTERDISTANCE, [1.0])
